@@ -88,28 +88,32 @@ def optimize(expr):
 
             elif op == Operator.MUL:
                 expr = WList(list(map(optimize, expr)), line_info=expr.line_info)
-                if any(arg == 0 for arg in expr[1:]):
-                    expr = 0
                 if all(isinstance(arg, (int, float)) for arg in expr[1:]):
                     expr = prod(expr[1:])
 
             elif op == Operator.AND:
-                # (&& x) => x
-                if len(expr) == 2:
-                    expr = expr[1]
-                elif any(not arg for arg in expr[1:]):
-                    expr = False
-                elif all(isinstance(arg, (int, float, str)) and arg != 0 for arg in expr[1:]):
-                    expr = True
+                # fold only while the leading arguments are literals
+                for arg in expr[1:]:
+                    if not isinstance(arg, (int, float, str)):
+                        break
+                    if not arg:
+                        expr = False
+                        break
+                else:
+                    if len(expr) > 1:
+                        expr = True
 
             elif op == Operator.OR:
-                # (|| x) => x
-                if len(expr) == 2:
-                    expr = expr[1]
-                elif any(isinstance(arg, (int, float, str)) and arg != 0 for arg in expr[1:]):
-                    expr = True
-                elif all(not arg for arg in expr[1:]):
-                    expr = False
+                # fold only while the leading arguments are literals
+                for arg in expr[1:]:
+                    if not isinstance(arg, (int, float, str)):
+                        break
+                    if arg:
+                        expr = True
+                        break
+                else:
+                    if len(expr) > 1:
+                        expr = False
             else:
                 expr = WList(list(map(optimize, expr)), line_info=expr.line_info)
 
